@@ -36,7 +36,8 @@ store (`a`), then - in the middle of a CommissioningComplete that performs two s
 the elements `mid`, then elements that equal the OLD store (`bs`) -/
 def Seg (n n' : Node) (mid : List KV) : Prop :=
   ∃ (a bs : List KV), n'.hist = a ++ (mid ++ (bs ++ n.hist)) ∧ a.length ≤ 1 ∧
-    (∀ kv ∈ bs, KV.Same kv n.kv) ∧ (∀ kv ∈ a, KV.Same kv n'.kv)
+    (∀ kv ∈ bs, KV.Same kv n.kv) ∧ (∀ kv ∈ a, KV.Same kv n'.kv) ∧
+    (a = [] → mid = [] ∧ KV.Same n'.kv n.kv)
 
 /-- at most one change of the projection, nothing in the middle -/
 def One (n n' : Node) : Prop := Seg n n' []
@@ -55,15 +56,16 @@ theorem quiet_trans {a b c : Node} (h1 : Quiet a b) (h2 : Quiet b c) : Quiet a c
   · exact p1 kv h
 
 theorem seg_of_quiet {a b : Node} (h : Quiet a b) : One a b := by
-  obtain ⟨_, new, e, p⟩ := h
-  exact ⟨[], new, by rw [e]; rfl, by simp, p, fun _ h => by cases h⟩
+  obtain ⟨hs, new, e, p⟩ := h
+  exact ⟨[], new, (by rw [e]; rfl), (by simp), p, (fun _ h => by cases h), fun _ => ⟨rfl, hs⟩⟩
 
 theorem one_of_quiet {a b : Node} (h : Quiet a b) : One a b := seg_of_quiet h
 
 theorem quiet_seg {a b c : Node} {mid : List KV} (h1 : Quiet a b) (h2 : Seg b c mid) : Seg a c mid := by
   obtain ⟨s1, n1, e1, p1⟩ := h1
-  obtain ⟨x, bs, e2, hx, pb, px⟩ := h2
-  refine ⟨x, bs ++ n1, by rw [e2, e1, List.append_assoc], hx, fun kv hk => ?_, px⟩
+  obtain ⟨x, bs, e2, hx, pb, px, pe⟩ := h2
+  refine ⟨x, bs ++ n1, by rw [e2, e1, List.append_assoc], hx, fun kv hk => ?_, px,
+    fun ha => ⟨(pe ha).1, (pe ha).2.trans s1⟩⟩
   rcases List.mem_append.mp hk with h | h
   · exact (pb kv h).trans s1
   · exact p1 kv h
@@ -73,8 +75,9 @@ theorem quiet_one {a b c : Node} (h1 : Quiet a b) (h2 : One b c) : One a c := qu
 /-- the store and its history are left as they are after the change -/
 theorem seg_eq {a b c : Node} {mid : List KV} (h1 : Seg a b mid) (hk : c.kv = b.kv) (hh : c.hist = b.hist) :
     Seg a c mid := by
-  obtain ⟨x, bs, e, hx, pb, px⟩ := h1
-  exact ⟨x, bs, by rw [hh, e], hx, pb, fun kv h => by rw [hk]; exact px kv h⟩
+  obtain ⟨x, bs, e, hx, pb, px, pe⟩ := h1
+  exact ⟨x, bs, by rw [hh, e], hx, pb, fun kv h => by rw [hk]; exact px kv h,
+    fun ha => ⟨(pe ha).1, by rw [hk]; exact (pe ha).2⟩⟩
 
 theorem one_eq {a b c : Node} (h1 : One a b) (hk : c.kv = b.kv) (hh : c.hist = b.hist) : One a c :=
   seg_eq h1 hk hh
@@ -83,7 +86,7 @@ theorem one_eq {a b c : Node} (h1 : One a b) (hk : c.kv = b.kv) (hh : c.hist = b
 store on the projection, or is one of the elements in the middle -/
 theorem seg_mem {n n' : Node} {mid : List KV} (h : Seg n n' mid) :
     ∀ kv ∈ n'.hist, kv ∈ n.hist ∨ KV.Same kv n.kv ∨ KV.Same kv n'.kv ∨ kv ∈ mid := by
-  obtain ⟨x, bs, e, _, pb, px⟩ := h
+  obtain ⟨x, bs, e, _, pb, px, _⟩ := h
   intro kv hk
   rw [e] at hk
   rcases List.mem_append.mp hk with h | h
@@ -113,7 +116,7 @@ theorem quiet_mem {n n' : Node} (h : Quiet n n') : ∀ kv ∈ n'.hist, kv ∈ n.
 
 /-- one effective mutation: the new store is pushed on the history -/
 theorem one_of_commit {n n' : Node} (hh : n'.hist = n'.kv :: n.hist) : One n n' := by
-  refine ⟨[n'.kv], [], (by rw [hh]; rfl), (by simp), (fun _ h => by cases h), fun kv h => ?_⟩
+  refine ⟨[n'.kv], [], (by rw [hh]; rfl), (by simp), (fun _ h => by cases h), (fun kv h => ?_), (fun h => by simp at h)⟩
   rw [List.mem_singleton.mp h]; exact KV.Same.refl _
 
 /-! ### the primitives -/
@@ -533,7 +536,7 @@ theorem sessOp_complete_seg (cfg : Cfg) (n : Node) (sid s : Nat) (mode : Mode) :
           cases b2 with
           | true =>
             rcases hst2 with ⟨_, hkv2, hh2⟩ | ⟨hb, _⟩
-            · refine Or.inr ⟨f, ⟨[n2.kv], [], ?_, (by simp), (fun _ h => by cases h), fun kv h => ?_⟩, ?_⟩
+            · refine Or.inr ⟨f, ⟨[n2.kv], [], ?_, (by simp), (fun _ h => by cases h), (fun kv h => ?_), (fun h => by simp at h)⟩, ?_⟩
               · simp only [ok]; rw [hh2, hh1', hkv2]; rfl
               · simp only [ok]; rw [List.mem_singleton.mp h]; exact KV.Same.refl _
               · simp only [ok]; rw [hh2, hh1']; simp
@@ -548,7 +551,7 @@ theorem sessOp_complete_seg (cfg : Cfg) (n : Node) (sid s : Nat) (mode : Mode) :
                 show n2.hist = n2.kv :: n.hist
                 rw [hh2, hkv2, hh1', hkv1']
               · refine Or.inr ⟨f, ⟨[(undoAdded { n2 with managed := n1.managed } f.idx).kv], [], ?_, (by simp),
-                  (fun _ h => by cases h), fun kv h => ?_⟩, ?_⟩
+                  (fun _ h => by cases h), (fun kv h => ?_), (fun h => by simp at h)⟩, ?_⟩
                 · rw [hh0, hk0]
                   show n2.kv.delFabric f.idx :: n2.hist = _
                   rw [hh2, hh1']; rfl
